@@ -91,7 +91,14 @@ def finish(prop, tier, seed, cfg, out, t0):
     new, known, n_new, idx = findings.classify(prop, viols, vc)
     os.makedirs(os.path.join(common.REPLAYS, prop), exist_ok=True)
     replay_paths = []
-    for v in new[:10]:
+    seen_cls = collections.Counter()
+    picked = []
+    for v in new:
+        k = (v["clause"], tuple(v["mechs"]))
+        if seen_cls[k] < 2:
+            seen_cls[k] += 1
+            picked.append(v)
+    for v in picked[:16]:
         rp = v.get("replay") or dict(property=prop, clause=v["clause"], observed=v["detail"])
         rp["repo_rev"] = common.repo_rev()
         rp["tier"] = tier
